@@ -626,4 +626,30 @@ def id_universe_rule(ctx, rid, f=None):
     else:
         rr.note("missing_results does not use a range(); covered by the listing rule")
         rr.ok("missing_results: no range() idiom")
+    # polarity: an id is reported missing exactly when its result file is absent
+    tests_ = [c for c in ast.walk(mr.node) if isinstance(c, ast.Call) and norm(c.func) in ("os.path.isfile", "os.path.exists")]
+    if len(tests_) == 1:
+        c = tests_[0]
+        neg = 0
+        p_ = getattr(c, "_parent", None)
+        while isinstance(p_, ast.UnaryOp) and isinstance(p_.op, ast.Not):
+            neg += 1
+            p_ = getattr(p_, "_parent", None)
+        keep_absent = None
+        if isinstance(p_, ast.Return):                       # predicate handed to filter(): kept when truthy
+            fl_ = [x for x in ast.walk(mr.node) if isinstance(x, ast.Call) and norm(x.func) in ("filter", "itertools.filterfalse", "filterfalse")]
+            if len(fl_) == 1:
+                keep_absent = (neg % 2 == 1) if norm(fl_[0].func) == "filter" else (neg % 2 == 0)
+        elif isinstance(p_, ast.If) and any(isinstance(x, ast.Call) and isinstance(x.func, ast.Attribute) and x.func.attr == "append" for b_ in p_.body for x in ast.walk(b_)):
+            keep_absent = neg % 2 == 1
+        elif isinstance(p_, ast.comprehension):
+            keep_absent = neg % 2 == 1
+        if keep_absent is True:
+            rr.ok("missing_results keeps an id exactly when its result file is absent")
+        elif keep_absent is False:
+            rr.bad(ctx.finding(rid, mr, c, "missing_results reports the batches whose result file *exists* (the absence test lost / gained a negation): finished batches are grown again and missing ones never", construct="missing-polarity"), "missing polarity")
+        else:
+            raise AnalysisError("idiom changed: how missing_results uses `%s`" % norm(c)[:60])
+    else:
+        raise AnalysisError("idiom changed: result-file test in missing_results (%d found)" % len(tests_))
     return rr
